@@ -8,5 +8,6 @@ if __name__ == '__main__':
     from vk import simh
     sim = simh.run_public(sc, [int(sys.argv[2])])
     out = simh.outputs(sim)
+    out.pop('event_rows', None)
     out.pop('state', None)          # C10 is about the outputs a user gets: per-timestep table, task table, event log
     print('DIGEST ' + hashlib.sha1(json.dumps(out, sort_keys=True, default=str).encode()).hexdigest())
